@@ -21,6 +21,8 @@ use crate::config::find_ignore_file_path;
 mod config;
 mod opt;
 mod output_diff;
+#[cfg(kani)]
+mod verif_kani;
 
 static EXIT_CODE: AtomicI32 = AtomicI32::new(0);
 static UNFORMATTED_FILE_COUNT: AtomicU32 = AtomicU32::new(0);
